@@ -316,3 +316,388 @@ Proof.
   revert l. induction ks as [|k ks IH]; intros [|t l] H; simpl in *; try discriminate; [split; reflexivity|].
   destruct (IH l ltac:(lia)) as [E1 E2]. rewrite E1, E2. split; reflexivity.
 Qed.
+
+(* ---------------------------------------------------------------- what the printer prints for the fragment *)
+Lemma print_num dt : type_tostring (RNum [] [] dt) = dtype_to_name dt.
+Proof. reflexivity. Qed.
+Lemma print_unk : type_tostring (RUnk [] []) = n_unknown.
+Proof. reflexivity. Qed.
+Lemma print_list t : type_tostring (RList [] [] t) = w_var ++ p_star ++ type_tostring t.
+Proof. reflexivity. Qed.
+Lemma print_reg n t : type_tostring (RReg [] [] n t) = dec_of_Z n ++ p_star ++ type_tostring t.
+Proof. reflexivity. Qed.
+Lemma print_opt t : type_tostring (ROpt [] [] t) =
+  if is_listlike t then w_option ++ 91 :: type_tostring t ++ [93] else 63 :: type_tostring t.
+Proof. cbn [type_tostring]. destruct (is_listlike t); reflexivity. Qed.
+Lemma print_union l : type_tostring (RUnion [] [] l) = w_union ++ 91 :: sep_concat p_comma (map type_tostring l) ++ [93].
+Proof. cbn [type_tostring]. reflexivity. Qed.
+Lemma print_rec ks l : type_tostring (RRec [] [] (Some ks) l) = 123 :: sep_concat p_comma (keyed ks (map type_tostring l)) ++ [125].
+Proof. reflexivity. Qed.
+Lemma print_tuple l : type_tostring (RRec [] [] None l) = 40 :: sep_concat p_comma (map type_tostring l) ++ [41].
+Proof. reflexivity. Qed.
+
+Lemma is_name_alnum w : is_name w = true ->
+  exists c w', w = c :: w' /\ is_alpha_ c = true /\ forallb is_alnum_ w = true /\ nonul w = true.
+Proof.
+  destruct w as [|c w']; [discriminate|]. simpl. intros H. apply andb_true_iff in H as [H1 H2].
+  exists c, w'. split; [reflexivity|]. split; [exact H1|].
+  destruct (alpha_tests c H1) as (_ & _ & _ & _ & Ha). split.
+  - simpl. rewrite Ha. exact H2.
+  - assert (Hz : forall x, is_alnum_ x = true -> negb (x =? 0) = true).
+    { intros x Hx. destruct (x =? 0) eqn:E; [|reflexivity]. apply Z.eqb_eq in E. subst. discriminate Hx. }
+    simpl. rewrite (Hz c Ha). simpl. apply forallb_forall. intros x Hx. rewrite forallb_forall in H2. apply Hz, H2, Hx.
+Qed.
+
+Lemma existsb_app_false {A} (f : A -> bool) l1 l2 : existsb f (l1 ++ l2) = false -> existsb f l1 = false.
+Proof. rewrite existsb_app. intros H. apply orb_false_iff in H. tauto. Qed.
+
+Lemma reserved_split : exists rest, reserved_words = datashape_keywords ++ rest.
+Proof. eexists. reflexivity. Qed.
+
+Lemma print_named w ks l : is_name w = true -> existsb (bytes_eqb w) reserved_words = false ->
+  type_tostring (RRec (@cons (bytes * json) (@pair bytes json k_record (JStr w)) nil) [] ks l) =
+  w ++ 91 :: sep_concat p_comma (match ks with Some ks => keyed ks (map type_tostring l) | None => map type_tostring l end) ++ [93].
+Proof.
+  intros Hn Hr. destruct (is_name_alnum w Hn) as (c & w' & Hw & Hc & Hall & Hnul).
+  cbn [type_tostring]. unfold record_name.
+  rewrite (cstr_nonul w Hnul), bytes_eqb_refl, Hn.
+  destruct reserved_split as (rest & Hrs). rewrite Hrs in Hr. rewrite (existsb_app_false _ _ _ Hr).
+  reflexivity.
+Qed.
+
+Lemma hardcoded_cases t : hardcoded t = true -> t = t_string \/ t = t_bytes \/ t = t_char \/ t = t_byte.
+Proof.
+  unfold hardcoded. destruct t as [p s dt|p s|p s t'|p s n t'|p s t'|p s ks l|p s l]; try discriminate.
+  - destruct p as [|[k [| | | |v| |]] [|]]; try discriminate. destruct dt as [[]| | | | | | | |]; try discriminate.
+    intros H. apply andb_true_iff in H as [H1 H2]. apply bytes_eqb_eq in H1. subst k.
+    apply orb_true_iff in H2 as [H2|H2]; apply andb_true_iff in H2 as [Ha Hb];
+      apply bytes_eqb_eq in Ha, Hb; subst; auto.
+  - destruct p as [|[k [| | | |v| |]] [|]]; try discriminate.
+    destruct t' as [p' s' dt'| | | | | |]; try discriminate.
+    destruct p' as [|[k' [| | | |v'| |]] [|]]; try discriminate. destruct dt' as [[]| | | | | | | |]; try discriminate.
+    intros H. apply andb_true_iff in H as [H1 H2]. apply andb_true_iff in H1 as [Hk Hk'].
+    apply bytes_eqb_eq in Hk, Hk'. subst k k'.
+    apply orb_true_iff in H2 as [H2|H2];
+      repeat (apply andb_true_iff in H2 as [H2 ?]);
+      repeat match goal with H : bytes_eqb _ _ = true |- _ => apply bytes_eqb_eq in H end; subst; auto.
+Qed.
+
+(* ---------------------------------------------------------------- one step of the parser *)
+Lemma parse_ty_word fuel w rest :
+  (exists c w', w = c :: w' /\ is_alpha_ c = true) -> forallb is_alnum_ w = true ->
+  match rest with [] => True | c :: _ => is_alnum_ c = false end ->
+  parse_ty (S fuel) (w ++ rest) = word_branch (parse_ty fuel) fuel w rest.
+Proof.
+  intros (c & w' & -> & Hc) Hall Hrest.
+  destruct (alpha_tests c Hc) as (H63 & H123 & H40 & Hd & _).
+  change ((c :: w') ++ rest) with (c :: (w' ++ rest)). cbn [parse_ty].
+  rewrite H63, H123, H40, Hd, Hc.
+  change (c :: w' ++ rest) with ((c :: w') ++ rest). rewrite (span_word is_alnum_ _ _ Hall Hrest). reflexivity.
+Qed.
+
+Lemma word_branch_plain sub fuel w rest :
+  match rest with [] => True | c :: _ => (c =? 91) = false end ->
+  word_branch sub fuel w rest = plain_word sub w rest.
+Proof. unfold word_branch. destruct rest as [|c r]; [reflexivity|]. intros ->. reflexivity. Qed.
+
+Lemma digit_tests c : is_digit c = true -> (c =? 63) = false /\ (c =? 123) = false /\ (c =? 40) = false.
+Proof.
+  unfold is_digit. intros H. apply andb_true_iff in H as [H1 H2]. apply Z.leb_le in H1, H2.
+  repeat split; apply Z.eqb_neq; lia.
+Qed.
+
+Lemma parse_ty_num fuel ds rest :
+  (exists c ds', ds = c :: ds' /\ is_digit c = true) ->
+  parse_ty (S fuel) (ds ++ rest) = num_branch (parse_ty fuel) (ds ++ rest).
+Proof.
+  intros (c & ds' & -> & Hc). destruct (digit_tests c Hc) as (H63 & H123 & H40).
+  change ((c :: ds') ++ rest) with (c :: (ds' ++ rest)). cbn [parse_ty]. rewrite H63, H123, H40, Hc. reflexivity.
+Qed.
+
+Lemma literal_word_plain fuel w rest :
+  (exists c w', w = c :: w' /\ is_alpha_ c = true) -> forallb is_alnum_ w = true -> follow_ok rest ->
+  parse_ty (S fuel) (w ++ rest) = plain_word (parse_ty fuel) w rest.
+Proof.
+  intros Hw Hall Hf. rewrite (parse_ty_word fuel w rest Hw Hall (follow_not_alnum rest Hf)).
+  apply word_branch_plain, follow_not_bracket, Hf.
+Qed.
+
+(* ---------------------------------------------------------------- first byte of a printed type *)
+Lemma head_ok_alpha c r : is_alpha_ c = true -> head_ok (c :: r).
+Proof.
+  intros H. exists c, r. split; [reflexivity|].
+  unfold is_alpha_ in H.
+  assert (Hr : (97 <= c <= 122) \/ (65 <= c <= 90) \/ c = 95).
+  { apply orb_true_iff in H as [H|H]; [apply orb_true_iff in H as [H|H]|].
+    - apply andb_true_iff in H as [H1 H2]. apply Z.leb_le in H1, H2. lia.
+    - apply andb_true_iff in H as [H1 H2]. apply Z.leb_le in H1, H2. lia.
+    - apply Z.eqb_eq in H. lia. }
+  repeat split; apply Z.eqb_neq; lia.
+Qed.
+
+Lemma head_ok_printable t : printable t = true -> head_ok (type_tostring t).
+Proof.
+  intros H. destruct t as [p s dt|p s|p s t'|p s n t'|p s t'|p s ks l|p s l]; cbn [printable] in H;
+    apply orb_true_iff in H as [H|H];
+    try (destruct (hardcoded_cases _ H) as [->|[->|[->| ->]]]; apply head_ok_alpha; reflexivity).
+  - destruct p; [|discriminate]. destruct s; [|discriminate]. rewrite print_num.
+    destruct dt as [[]| | | | | | | |]; try discriminate H; apply head_ok_alpha; reflexivity.
+  - destruct p; [|discriminate]. destruct s; [|discriminate]. apply head_ok_alpha. reflexivity.
+  - destruct p; [|discriminate]. destruct s; [|discriminate]. rewrite print_list. apply head_ok_alpha. reflexivity.
+  - destruct p; [|discriminate]. destruct s; [|discriminate]. rewrite print_reg.
+    apply andb_true_iff in H as [Hn _]. apply Z.leb_le in Hn.
+    destruct (Z_of_digits_dec n Hn) as (u & Hu & Hnil & _). rewrite Hu.
+    destruct (uint_digits_head u Hnil) as (c & r & Hcr & Hd). rewrite Hcr.
+    exists c, (r ++ p_star ++ type_tostring t'). split; [reflexivity|].
+    unfold is_digit in Hd. apply andb_true_iff in Hd as [H1 H2]. apply Z.leb_le in H1, H2.
+    repeat split; apply Z.eqb_neq; lia.
+  - destruct p; [|discriminate]. destruct s; [|discriminate]. rewrite print_opt.
+    destruct (is_listlike t'); [apply head_ok_alpha; reflexivity|].
+    exists 63, (type_tostring t'). repeat split; reflexivity.
+  - destruct s; [|destruct p; discriminate H].
+    destruct p as [|[k v] p'].
+    + destruct ks as [ks|]; [rewrite print_rec|rewrite print_tuple]; eexists; eexists; repeat split; reflexivity.
+    + apply andb_true_iff in H as [_ H].
+      destruct v as [| | | |w| |]; try discriminate H. destruct p'; [|discriminate H].
+      apply andb_true_iff in H as [H Hks]. apply andb_true_iff in H as [H Hres]. apply andb_true_iff in H as [Hk Hn].
+      apply bytes_eqb_eq in Hk. subst k. apply negb_true_iff in Hres.
+      rewrite (print_named w ks l Hn Hres).
+      destruct (is_name_alnum w Hn) as (c & w' & -> & Hc & _). apply head_ok_alpha. exact Hc.
+  - destruct p; [|discriminate]. destruct s; [|discriminate]. rewrite print_union. apply head_ok_alpha. reflexivity.
+Qed.
+
+(* ---------------------------------------------------------------- the round trip *)
+Definition pp (t : rty) : Prop :=
+  printable t = true -> forall fuel rest, (rty_size t <= fuel)%nat -> follow_ok rest ->
+  parse_ty fuel (type_tostring t ++ rest) = Ok (t, rest).
+
+Lemma hardcoded_pp t : hardcoded t = true -> forall fuel rest, (1 <= fuel)%nat -> follow_ok rest ->
+  parse_ty fuel (type_tostring t ++ rest) = Ok (t, rest).
+Proof.
+  intros H fuel rest Hf Hr. destruct fuel as [|fuel]; [lia|].
+  destruct (hardcoded_cases t H) as [->|[->|[->| ->]]].
+  - change (type_tostring t_string) with p_string.
+    rewrite literal_word_plain; [reflexivity|eexists; eexists; split; reflexivity|reflexivity|exact Hr].
+  - change (type_tostring t_bytes) with p_bytes.
+    rewrite literal_word_plain; [reflexivity|eexists; eexists; split; reflexivity|reflexivity|exact Hr].
+  - change (type_tostring t_char) with p_char.
+    rewrite literal_word_plain; [reflexivity|eexists; eexists; split; reflexivity|reflexivity|exact Hr].
+  - change (type_tostring t_byte) with p_byte.
+    rewrite literal_word_plain; [reflexivity|eexists; eexists; split; reflexivity|reflexivity|exact Hr].
+Qed.
+
+Lemma parses_of_pp fuel l :
+  Forall pp l -> forallb printable l = true ->
+  (fold_right (fun t n => (rty_size t + n)%nat) O l <= fuel)%nat ->
+  Forall (parses (parse_ty fuel)) l /\ Forall (fun t => head_ok (type_tostring t)) l /\ (length l <= fuel)%nat.
+Proof.
+  intros HF Hp Hs. destruct (size_sum_ge l) as [Hlen Hsz].
+  split; [|split; [|lia]].
+  - apply Forall_forall. intros t Ht rest Hr. rewrite Forall_forall in HF. rewrite forallb_forall in Hp.
+    apply (HF t Ht (Hp t Ht)); [specialize (Hsz t Ht); lia|exact Hr].
+  - apply Forall_forall. intros t Ht. rewrite forallb_forall in Hp. apply head_ok_printable, Hp, Ht.
+Qed.
+
+Theorem parse_print_all t : pp t.
+Proof.
+  induction t as [p s dt|p s|p s t' IH|p s n t' IH|p s t' IH|p s ks l IH|p s l IH] using rty_ind';
+    intros Hp fuel rest Hf Hr; cbn [printable] in Hp;
+    apply orb_true_iff in Hp as [Hp|Hp];
+    try (apply hardcoded_pp; [exact Hp|pose proof (rty_size_pos (RNum p s dt)); simpl in *; lia|exact Hr]);
+    try (apply hardcoded_pp; [exact Hp|simpl in *; lia|exact Hr]).
+  - (* primitive *)
+    destruct p; [|discriminate]. destruct s; [|discriminate]. rewrite print_num.
+    destruct fuel as [|fuel]; [simpl in Hf; lia|].
+    destruct dt as [[]| | | | | | | |]; try discriminate Hp;
+      (rewrite literal_word_plain; [reflexivity|eexists; eexists; split; reflexivity|reflexivity|exact Hr]).
+  - (* unknown *)
+    destruct p; [|discriminate]. destruct s; [|discriminate]. rewrite print_unk.
+    destruct fuel as [|fuel]; [simpl in Hf; lia|].
+    rewrite literal_word_plain; [reflexivity|eexists; eexists; split; reflexivity|reflexivity|exact Hr].
+  - (* var * T *)
+    destruct p; [|discriminate]. destruct s; [|discriminate]. rewrite print_list.
+    destruct fuel as [|fuel]; [simpl in Hf; lia|]. simpl in Hf.
+    rewrite <- !app_assoc.
+    rewrite parse_ty_word; [|eexists; eexists; split; reflexivity|reflexivity|reflexivity].
+    rewrite word_branch_plain by reflexivity.
+    unfold plain_word. change (bytes_eqb w_var w_var) with true. cbv iota. rewrite strip_prefix_app.
+    rewrite (IH Hp fuel rest) by (try lia; exact Hr). reflexivity.
+  - (* N * T *)
+    destruct p; [|discriminate]. destruct s; [|discriminate]. rewrite print_reg.
+    apply andb_true_iff in Hp as [Hn Hp]. apply Z.leb_le in Hn.
+    destruct fuel as [|fuel]; [simpl in Hf; lia|]. simpl in Hf.
+    destruct (Z_of_digits_dec n Hn) as (u & Hu & Hnil & Hval). rewrite Hu.
+    destruct (uint_digits_head u Hnil) as (c & r & Hcr & Hd).
+    rewrite <- !app_assoc.
+    rewrite parse_ty_num by (exists c, r; split; [exact Hcr|exact Hd]).
+    unfold num_branch. rewrite (span_word is_digit _ _ (uint_digits_digits u)) by reflexivity.
+    rewrite strip_prefix_app. rewrite (IH Hp fuel rest) by (try lia; exact Hr).
+    cbn [bind fst snd]. rewrite Hval. reflexivity.
+  - (* option *)
+    destruct p; [|discriminate]. destruct s; [|discriminate]. rewrite print_opt.
+    destruct fuel as [|fuel]; [simpl in Hf; lia|]. simpl in Hf.
+    destruct (is_listlike t') eqn:El.
+    + rewrite <- !app_assoc. cbn [app].
+      rewrite parse_ty_word; [|eexists; eexists; split; reflexivity|reflexivity|reflexivity].
+      unfold word_branch. change (91 =? 91) with true. cbv iota.
+      unfold bracket_branch. change (bytes_eqb w_option w_option) with true. cbv iota.
+      rewrite <- app_assoc. cbn [app].
+      rewrite (IH Hp fuel (93 :: rest)) by (try lia; simpl; auto).
+      cbn [bind fst snd]. change (93 =? 93) with true. cbv iota. rewrite El. reflexivity.
+    + change (parse_ty (S fuel) ((63 :: type_tostring t') ++ rest))
+        with (opt_branch (parse_ty fuel) (type_tostring t' ++ rest)).
+      unfold opt_branch. rewrite (IH Hp fuel rest) by (try lia; exact Hr).
+      cbn [bind fst snd]. rewrite El. reflexivity.
+  - (* records and tuples *)
+    destruct s; [|destruct p; discriminate Hp].
+    destruct fuel as [|fuel]; [simpl in Hf; lia|]. simpl in Hf.
+    apply andb_true_iff in Hp as [Hp Hpar]. apply andb_true_iff in Hp as [Hpl Hks].
+    destruct (parses_of_pp fuel l IH Hpl ltac:(lia)) as (Hparses & Hheads & Hlen).
+    destruct p as [|[k v] p'].
+    + destruct ks as [ks|].
+      * apply andb_true_iff in Hks as [Hl Hkeys]. apply Nat.eqb_eq in Hl.
+        rewrite print_rec, (keyed_map ks l Hl).
+        change (parse_ty (S fuel) ((123 :: ?x) ++ rest)) with (brace_branch (parse_ty fuel) fuel (x ++ rest)).
+        unfold brace_branch. rewrite <- app_assoc. cbn [app].
+        destruct (zip_fst_snd ks l Hl) as [E1 E2].
+        rewrite (parse_fielditems_ok (parse_ty fuel) 125 (or_intror eq_refl) (zip ks l) fuel rest).
+        -- cbn [bind fst snd]. rewrite E1, E2. reflexivity.
+        -- apply Forall_forall. intros [k0 t0] Hin. simpl. rewrite Forall_forall in Hparses. apply Hparses.
+           rewrite <- E2. apply (in_map snd _ _ Hin).
+        -- rewrite E1. exact Hkeys.
+        -- assert (length (zip ks l) = length l) by (rewrite <- E2 at 2; rewrite map_length; reflexivity). lia.
+      * rewrite print_tuple.
+        change (parse_ty (S fuel) ((40 :: ?x) ++ rest)) with (paren_branch (parse_ty fuel) fuel (x ++ rest)).
+        unfold paren_branch. rewrite <- app_assoc. cbn [app].
+        rewrite (parse_items_ok (parse_ty fuel) 41 (or_intror (or_introl eq_refl)) l fuel rest Hparses Hheads Hlen).
+        reflexivity.
+    + (* named *)
+      destruct v as [| | | |w| |]; try discriminate Hpar. destruct p'; [|discriminate Hpar].
+      apply andb_true_iff in Hpar as [Hpar Hempty]. apply andb_true_iff in Hpar as [Hpar Hres].
+      apply andb_true_iff in Hpar as [Hk Hn].
+      apply bytes_eqb_eq in Hk. subst k. apply negb_true_iff in Hres.
+      rewrite (print_named w ks l Hn Hres).
+      destruct (is_name_alnum w Hn) as (c & w' & Hw & Hc & Hall & _).
+      rewrite <- !app_assoc. cbn [app]. rewrite <- ?app_assoc. cbn [app].
+      rewrite parse_ty_word; [|exists c, w'; split; [exact Hw|exact Hc]|exact Hall|reflexivity].
+      unfold word_branch. change (91 =? 91) with true. cbv iota.
+      unfold bracket_branch.
+      assert (Hno : bytes_eqb w w_option = false /\ bytes_eqb w w_union = false).
+      { assert (Hall' : forall x, In x reserved_words -> bytes_eqb w x = false).
+        { intros x Hx. destruct (bytes_eqb w x) eqn:E; [|reflexivity].
+          assert (existsb (bytes_eqb w) reserved_words = true) by (apply existsb_exists; exists x; auto). congruence. }
+        split; apply Hall'; vm_compute; tauto. }
+      destruct Hno as [Ho Hu]. rewrite Ho, Hu, Hres.
+      destruct ks as [ks|].
+      * apply andb_true_iff in Hks as [Hl Hkeys]. apply Nat.eqb_eq in Hl.
+        rewrite (keyed_map ks l Hl). destruct (zip_fst_snd ks l Hl) as [E1 E2].
+        destruct (zip ks l) as [|[k0 t0] kts] eqn:Ez.
+        -- simpl in E1, E2. subst ks l. cbn [map sep_concat app]. change (93 =? 34) with false. change (93 =? 93) with true. reflexivity.
+        -- assert (Hhead : exists r', sep_concat p_comma (map (fun kt : bytes * rty => quote (fst kt) ++ p_colon ++ type_tostring (snd kt)) ((k0, t0) :: kts)) ++ 93 :: rest = 34 :: r').
+           { cbn [map fst snd]. destruct (map _ kts); cbn [sep_concat]; unfold quote; cbn [app]; eexists; reflexivity. }
+           destruct Hhead as (r' & Hr'). rewrite Hr'. change (34 =? 34) with true. cbv iota. rewrite <- Hr'.
+           rewrite (parse_fields_ok (parse_ty fuel) 93 (or_introl eq_refl) ((k0, t0) :: kts) fuel rest).
+           ++ cbn [bind fst snd]. rewrite E1, E2. reflexivity.
+           ++ discriminate.
+           ++ apply Forall_forall. intros [k1 t1] Hin. simpl. rewrite Forall_forall in Hparses. apply Hparses.
+              rewrite <- E2. apply (in_map snd _ _ Hin).
+           ++ rewrite E1. exact Hkeys.
+           ++ assert (length ((k0, t0) :: kts) = length l) by (rewrite <- E2; rewrite map_length; reflexivity). lia.
+      * destruct l as [|t0 l0]; [discriminate Hempty|].
+        inversion Hheads as [|? ? (c0 & r0 & Hs0 & H93 & H41 & H125 & H34) _]; subst.
+        assert (Hhead : exists r', sep_concat p_comma (map type_tostring (t0 :: l0)) ++ 93 :: rest = c0 :: r').
+        { cbn [map]. destruct (map type_tostring l0); cbn [sep_concat]; rewrite Hs0; eexists; reflexivity. }
+        destruct Hhead as (r' & Hr'). rewrite Hr'. rewrite H34, H93. rewrite <- Hr'.
+        rewrite (parse_list_ok (parse_ty fuel) 93 (or_introl eq_refl) (t0 :: l0) fuel rest); [reflexivity|discriminate|exact Hparses|exact Hlen].
+  - (* union *)
+    destruct p; [|discriminate]. destruct s; [|discriminate]. rewrite print_union.
+    destruct fuel as [|fuel]; [simpl in Hf; lia|]. simpl in Hf.
+    destruct (parses_of_pp fuel l IH Hp ltac:(lia)) as (Hparses & Hheads & Hlen).
+    rewrite <- !app_assoc. cbn [app].
+    rewrite parse_ty_word; [|eexists; eexists; split; reflexivity|reflexivity|reflexivity].
+    unfold word_branch. change (91 =? 91) with true. cbv iota.
+    unfold bracket_branch. change (bytes_eqb w_union w_option) with false. change (bytes_eqb w_union w_union) with true. cbv iota.
+    rewrite <- app_assoc. cbn [app].
+    rewrite (parse_items_ok (parse_ty fuel) 93 (or_introl eq_refl) l fuel rest Hparses Hheads Hlen). reflexivity.
+Qed.
+
+(* ---------------------------------------------------------------- enough fuel: a printed type is at least as long as it is big *)
+Lemma sep_concat_length (sep : bytes) (parts : list bytes) :
+  (fold_right (fun p n => (length p + n)%nat) O parts <= length (sep_concat sep parts))%nat.
+Proof.
+  induction parts as [|p parts IH]; [simpl; lia|].
+  destruct parts as [|q parts]; [simpl; lia|].
+  rewrite sep_concat_cons2. rewrite !app_length. simpl fold_right in *. lia.
+Qed.
+
+Lemma sum_sizes_le (l : list rty) :
+  Forall (fun t => printable t = true -> (rty_size t <= length (type_tostring t))%nat) l ->
+  forallb printable l = true ->
+  (fold_right (fun t n => (rty_size t + n)%nat) O l <=
+   fold_right (fun p n => (length p + n)%nat) O (map type_tostring l))%nat.
+Proof.
+  induction 1 as [|t l Ht Hl IH]; intros Hp; simpl; [lia|].
+  simpl in Hp. apply andb_true_iff in Hp as [H1 H2]. specialize (Ht H1). specialize (IH H2). lia.
+Qed.
+
+Lemma keyed_lengths ks (l : list rty) : length ks = length l ->
+  (fold_right (fun p n => (length p + n)%nat) O (map type_tostring l) <=
+   fold_right (fun p n => (length p + n)%nat) O (keyed ks (map type_tostring l)))%nat.
+Proof.
+  revert l. induction ks as [|k ks IH]; intros [|t l] H; try discriminate H; [simpl; lia|].
+  assert (Hl : length ks = length l) by (simpl in H; lia).
+  specialize (IH l Hl). cbn [map keyed fold_right]. rewrite !app_length.
+  remember (fold_right (fun p n => (length p + n)%nat) O (map type_tostring l)) as a.
+  remember (fold_right (fun p n => (length p + n)%nat) O (keyed ks (map type_tostring l))) as b.
+  lia.
+Qed.
+
+Lemma size_le_print t : printable t = true -> (rty_size t <= length (type_tostring t))%nat.
+Proof.
+  induction t as [p s dt|p s|p s t' IH|p s n t' IH|p s t' IH|p s ks l IH|p s l IH] using rty_ind';
+    intros Hp; cbn [printable] in Hp; apply orb_true_iff in Hp as [Hp|Hp];
+    try (destruct (hardcoded_cases _ Hp) as [E|[E|[E|E]]]; rewrite E; vm_compute; lia).
+  - destruct p; [|discriminate]. destruct s; [|discriminate]. rewrite print_num.
+    destruct dt as [[]| | | | | | | |]; try discriminate Hp; vm_compute; lia.
+  - destruct p; [|discriminate]. destruct s; [|discriminate]. vm_compute. lia.
+  - destruct p; [|discriminate]. destruct s; [|discriminate]. rewrite print_list, !app_length.
+    specialize (IH Hp). simpl rty_size. lia.
+  - destruct p; [|discriminate]. destruct s; [|discriminate]. rewrite print_reg, !app_length.
+    apply andb_true_iff in Hp as [_ Hp]. specialize (IH Hp). simpl rty_size. simpl (length p_star). lia.
+  - destruct p; [|discriminate]. destruct s; [|discriminate]. rewrite print_opt. specialize (IH Hp).
+    destruct (is_listlike t'); simpl rty_size; [rewrite !app_length|]; simpl length; try rewrite !app_length; simpl length; lia.
+  - destruct s; [|destruct p; discriminate Hp].
+    apply andb_true_iff in Hp as [Hp Hpar]. apply andb_true_iff in Hp as [Hpl Hks].
+    pose proof (sum_sizes_le l IH Hpl) as Hsum. simpl rty_size.
+    destruct p as [|[k v] p'].
+    + destruct ks as [ks|].
+      * apply andb_true_iff in Hks as [Hl _]. apply Nat.eqb_eq in Hl.
+        rewrite print_rec. simpl length. rewrite app_length. simpl length.
+        pose proof (sep_concat_length p_comma (keyed ks (map type_tostring l))).
+        pose proof (keyed_lengths ks l Hl). lia.
+      * rewrite print_tuple. simpl length. rewrite app_length. simpl length.
+        pose proof (sep_concat_length p_comma (map type_tostring l)). lia.
+    + destruct v as [| | | |w| |]; try discriminate Hpar. destruct p'; [|discriminate Hpar].
+      apply andb_true_iff in Hpar as [Hpar _]. apply andb_true_iff in Hpar as [Hpar Hres].
+      apply andb_true_iff in Hpar as [Hk Hn]. apply bytes_eqb_eq in Hk. subst k. apply negb_true_iff in Hres.
+      rewrite (print_named w ks l Hn Hres). rewrite app_length. simpl length. rewrite app_length. simpl length.
+      destruct ks as [ks|].
+      * apply andb_true_iff in Hks as [Hl _]. apply Nat.eqb_eq in Hl.
+        pose proof (sep_concat_length p_comma (keyed ks (map type_tostring l))).
+        pose proof (keyed_lengths ks l Hl). lia.
+      * pose proof (sep_concat_length p_comma (map type_tostring l)). lia.
+  - destruct p; [|discriminate]. destruct s; [|discriminate]. rewrite print_union.
+    pose proof (sum_sizes_le l IH Hp) as Hsum. simpl rty_size.
+    rewrite app_length. simpl length. rewrite app_length. simpl length.
+    pose proof (sep_concat_length p_comma (map type_tostring l)). lia.
+Qed.
+
+Theorem type_print_parse_roundtrip_thm t : printable t = true -> type_parse (type_tostring t) = Ok t.
+Proof.
+  intros Hp. unfold type_parse.
+  rewrite <- (app_nil_r (type_tostring t)) at 2.
+  rewrite (parse_print_all t Hp (S (length (type_tostring t))) []).
+  - reflexivity.
+  - pose proof (size_le_print t Hp). lia.
+  - exact I.
+Qed.
